@@ -105,6 +105,9 @@ def check_C03(c):
         jobs.append(("trans-len4", dict(MinRank=2, MaxRank=3, MaxDim=3, MaxDimHi=2, HiRank=3, Ctors={S("C")},
                                         MaxLen=4, WithSlice=False, PermPalette=True,
                                         Alphabet={S("T"), S("UT"), S("Transpose"), S("Materialize")}, BothTargets=False)))
+    # Level 2: the in-place transposition algorithm of the inplacetranspose build, transcribed (spec/InplaceT.tla), refines
+    # Level-1 Transpose for every shape and permutation in bounds (design level; the behaviours below bind it to the code)
+    c.tlc("MC_inplace", "inplace-refines", dict(MaxRank=4, MaxDim=3 if q else 4, MaxDimHi=2, HiRank=4), ["Refines"])
     for name, k in jobs:
         cases = c.tlc("MC_trans", name, k, inv)
         for tags in (("verif",), ("verif", "inplacetranspose")):
@@ -112,8 +115,11 @@ def check_C03(c):
     c.rep.rule = ("TLC enumerates programs over {T(p), UT, Transpose, Materialize, SafeT(p), RollAxis} on contiguous, sliced and "
                   "column-major sources for every shape and permutation in bounds; each behaviour is executed in the default and the "
                   "inplacetranspose build, for element sizes 1,2,4,8,16 bytes and strings; every live tensor, and the caller's backing "
-                  "(storage order after physical moves) is compared after the program")
-    c.rep.assumptions = ["invalid permutations are left open at Level 1 (their rejection is checked under C13)"]
+                  "(storage order after physical moves) is compared after the program. Level 2: spec/InplaceT.tla transcribes the "
+                  "cycle-following in-place transposition (transposeIndex, Itol, the bitmap loop) and TLC checks that it leaves the "
+                  "storage in the row-major order of the transposed tensor for every shape and permutation in bounds")
+    c.rep.assumptions = ["invalid permutations are left open at Level 1 (their rejection is checked under C13)",
+                         "InplaceT.tla assumes the standard saved access pattern (the circumstances of KF-C03-3/4 are outside it)"]
 
 
 def check_C04(c):
